@@ -99,7 +99,68 @@ fn reparse(block: &Block, code: &Option<String>) -> &'static str {
     }
 }
 
+/// The recorded defect "semicolon:generator-parenthesised-last-operand": the last operand on the
+/// right spine of the statement's final expression is wrapped in parentheses by the generator
+/// (no Parenthese node in the tree).
+fn last_operand_wrapped(mut expression: &Expression) -> bool {
+    loop {
+        match expression {
+            Expression::Binary(binary) => {
+                if binary.operator().right_needs_parentheses(binary.right()) {
+                    return true;
+                }
+                expression = binary.right();
+            }
+            Expression::Unary(unary) => {
+                if let Expression::Binary(binary) = unary.get_expression() {
+                    if !binary.operator().precedes_unary_expression() {
+                        return true;
+                    }
+                }
+                expression = unary.get_expression();
+            }
+            Expression::If(if_expression) => expression = if_expression.get_else_result(),
+            _ => return false,
+        }
+    }
+}
+
+fn statement_last_expression(statement: &Statement) -> Option<&Expression> {
+    match statement {
+        Statement::Assign(assign) => assign.last_value(),
+        Statement::LocalAssign(assign) => assign.last_value(),
+        Statement::CompoundAssign(assign) => Some(assign.get_value()),
+        Statement::Repeat(repeat) => Some(repeat.get_condition()),
+        _ => None,
+    }
+}
+
+struct KnownBoundaryDefect(bool);
+
+impl darklua_core::process::NodeProcessor for KnownBoundaryDefect {
+    fn process_block(&mut self, block: &mut Block) {
+        let statements: Vec<&Statement> = block.iter_statements().collect();
+        for pair in statements.windows(2) {
+            if utils::starts_with_parenthese(pair[1])
+                && statement_last_expression(pair[0]).map(last_operand_wrapped).unwrap_or(false)
+            {
+                self.0 = true;
+            }
+        }
+    }
+}
+
+fn has_known_boundary_defect(block: &Block) -> bool {
+    use darklua_core::process::{DefaultVisitor, NodeVisitor};
+    let mut block = block.clone();
+    let mut detector = KnownBoundaryDefect(false);
+    DefaultVisitor::visit_block(&mut block, &mut detector);
+    detector.0
+}
+
 fn emit_case(id: &mut usize, block: &Block, spans: &[usize], tag: &str) {
+    let tag = if has_known_boundary_defect(block) { format!("{}+wrapped-last-operand", tag) } else { tag.to_owned() };
+    let tag = tag.as_str();
     let mut walker = items::Walker::default();
     let encoded = match walker.write_block(block) {
         Ok(()) => items::encode(&walker.items),
@@ -194,6 +255,7 @@ fn stream(seed: u64, n: u64) {
         let block = {
             let mut g = gen::Gen::new(&mut rng);
             g.types = k % 3 != 0;
+            g.rich_types = k % 6 == 5;
             g.block(depth, false)
         };
         emit_case(&mut id, &block, &SPANS, "random");
